@@ -1444,14 +1444,24 @@ func (c *Client) sendSingleMsg(client *smtp.Client, message *Msg) error {
 	}
 	writer, err := client.Data()
 	if err != nil {
-		return &SendError{
+		retError := &SendError{
 			Reason: ErrSMTPData, errlist: []error{err}, isTemp: isTempError(err),
 			affectedMsg: message, errcode: errorCode(err),
 			enhancedStatusCode: enhancedStatusCode(err, escSupport),
 		}
+		// The server refused DATA, but MAIL FROM and RCPT TO have been accepted. The transaction
+		// is still open and needs to be aborted before the next message can be sent.
+		if resetSendErr := client.Reset(); resetSendErr != nil {
+			retError.errlist = append(retError.errlist, resetSendErr)
+		}
+		return retError
 	}
 	_, err = message.WriteTo(writer)
 	if err != nil {
+		// Part of the message has already been transmitted. SMTP has no means to abort a running
+		// DATA phase and the next command on this connection would implicitly terminate it, making
+		// the server accept a truncated message. The only safe option is to drop the connection.
+		_ = client.Close()
 		return &SendError{
 			Reason: ErrWriteContent, errlist: []error{err}, isTemp: isTempError(err),
 			affectedMsg: message, errcode: errorCode(err),
